@@ -23,7 +23,8 @@ Base(at, ch) == Mk([swagger |-> "2.0"] @@ at, [info |-> Mk([title |-> "t", versi
 PathsOf(f) == [paths |-> Mk(<<>>, f)]
 Req(f) == Mk(f, <<>>)
 
-MediaOpts == {<<>>, <<"application/json">>, <<"application/xml", "text/plain">>}
+\* (media types are opaque strings: parameters and repetitions are part of them)
+MediaOpts == {<<>>, <<"application/json">>, <<"application/xml", "text/plain">>, <<"application/json; charset=utf-8", "application/json", "application/json">>}
 SecOp == {"absent", "empty", "anon", "one", "two"}
 SecAt(k) == CASE k = "absent" -> <<>> [] k = "empty" -> [security |-> <<>>] [] OTHER -> <<>>
 SecCh(k) == CASE k = "anon" -> [security |-> ListOf(<<Req(<<>>)>>)]
@@ -44,6 +45,7 @@ ParamLists == {<<>>} \cup { <<a>> : a \in ParamKinds } \cup { <<a, b>> : a \in P
 PList(s, lvl) == IF s = <<>> THEN <<>> ELSE [parameters |-> ListOf([i \in DOMAIN s |-> IF s[i] = "same" /\ lvl = "op" THEN [ParamOf("same", lvl) EXCEPT !.at = [type |-> "integer"] @@ @] ELSE ParamOf(s[i], lvl)])]
 SharedP == [parameters |-> Mk(<<>>, [N_1 |-> QParam("filter", "query")]), definitions |-> Mk(<<>>, [N_2 |-> Mk([type |-> "object"], <<>>)])]
 
+PRef(pr) == IF pr THEN ("$ref" :> <<"root", "x-shared", "items">>) ELSE <<>>
 Docs ==
   CASE Family = "media" ->
          { Base((IF dc = <<>> THEN <<>> ELSE [consumes |-> dc]) @@ (IF dp = <<>> THEN <<>> ELSE [produces |-> dp]),
@@ -55,9 +57,10 @@ Docs ==
                       @@ PathsOf([P_1 |-> Mk(<<>>, (m :> OpN(SecAt(os) @@ [operationId |-> "op1"], SecCh(os))))]))
            : m \in Methods, os \in SecOp, ds \in BOOLEAN, sd \in {"none", "some", "all"} }
     [] Family = "ops" ->
-         { Base(<<>>, PathsOf(IF same THEN ("P_1" :> Mk(<<>>, (m1 :> OpN(IF i1 = "" THEN <<>> ELSE [operationId |-> i1], <<>>)) @@ (m2 :> OpN(IF i2 = "" THEN <<>> ELSE [operationId |-> i2], <<>>))))
-                                  ELSE ("P_1" :> Mk(<<>>, (m1 :> OpN(IF i1 = "" THEN <<>> ELSE [operationId |-> i1], <<>>)))) @@ ("P_2" :> Mk(<<>>, (m2 :> OpN(IF i2 = "" THEN <<>> ELSE [operationId |-> i2], <<>>))))))
-           : m1 \in Methods, m2 \in Methods, i1 \in {"", "a"}, i2 \in {"", "a", "b"}, same \in BOOLEAN }
+         \* pr: the first path item ALSO carries a $ref (its own operations are operations of the document all the same)
+         { Base(<<>>, PathsOf(IF same THEN ("P_1" :> Mk(PRef(pr), (m1 :> OpN(IF i1 = "" THEN <<>> ELSE [operationId |-> i1], <<>>)) @@ (m2 :> OpN(IF i2 = "" THEN <<>> ELSE [operationId |-> i2], <<>>))))
+                                  ELSE ("P_1" :> Mk(PRef(pr), (m1 :> OpN(IF i1 = "" THEN <<>> ELSE [operationId |-> i1], <<>>)))) @@ ("P_2" :> Mk(<<>>, (m2 :> OpN(IF i2 = "" THEN <<>> ELSE [operationId |-> i2], <<>>))))))
+           : m1 \in Methods, m2 \in Methods, i1 \in {"", "a"}, i2 \in {"", "a", "b"}, same \in BOOLEAN, pr \in BOOLEAN }
     [] Family = "params" ->
          { Base(<<>>, SharedP @@ PathsOf([P_1 |-> Mk(<<>>, PList(pl, "path") @@ (IF hasop THEN (m :> OpN([operationId |-> "op1"], PList(ol, "op"))) ELSE <<>>))]))
            : m \in {"get", "options", "patch"}, pl \in ParamLists, ol \in ParamLists, hasop \in BOOLEAN }
